@@ -157,7 +157,8 @@ def _mentions(ev, key):
 def _gen_env(r, variant, flags):
     """Config entries and symbols of one build; ``variant`` shifts the values so that builds of a history differ."""
     cfg = [['ca', 3 + variant], ['cb', 7 * (variant + 1)], ['cs', 'txt%d' % variant], ['cflag', variant % 2 == 0],
-           ['cl', [1 + variant, 2, 3 + 2 * variant]], ['cm', {'x': 5 + variant, 'y': [4, 5]}], ['cz', 0]]
+           ['cl', [1 + variant, 2, 3 + 2 * variant]], ['cm', {'x': 5 + variant, 'y': [4, 5]}], ['cz', 0],
+           ['_cu', 11 + variant], ['__cv', 2 * variant + 1]]
     if flags['max'] and (not flags['vary'] or r.random() < 0.5):
         cfg.append(['max', 40 + variant])            # shadows a builtin - in some builds of the history only
     if flags['shared']:
@@ -171,7 +172,7 @@ def _gen_env(r, variant, flags):
         syms['shared'] = {'k': 'val', 'v': 1000 + variant}     # a symbol shadows the config entry of the same name
     if r.random() < 0.2:
         syms['ca'] = {'k': 'val', 'v': 500 + variant}
-    env = {'ca': 'int', 'cb': 'int', 'cs': 'str', 'cflag': 'bool', 'cl': 'list', 'cm': 'map', 'cz': 'int', 's1': 'int', 'scale': 'fun1', 'ctxm': 'cm'}
+    env = {'_cu': 'int', '__cv': 'int', 'ca': 'int', 'cb': 'int', 'cs': 'str', 'cflag': 'bool', 'cl': 'list', 'cm': 'map', 'cz': 'int', 's1': 'int', 'scale': 'fun1', 'ctxm': 'cm'}
     for k, v in cfg:
         if k in ('max', 'shared', 'extra'):
             env[k] = 'int'
